@@ -48,6 +48,14 @@ func c04Item(r *gen.R) gen.ItemSpec {
 	}
 }
 
+// c04AlignFromCallback registers a table-level pre-cell render callback which puts the assignment in force.
+func c04AlignFromCallback(t *tabular.ATable, aligns []int) {
+	t.RegisterPropertyCallback(t, tabular.CB_AT_RENDER_PRECELL, tabular.CB_ON_ITSELF, cbFunc(func(tabular.PropertyOwner) error {
+		setAlignsExactly(t, aligns)
+		return nil
+	}))
+}
+
 func c04Check(c *Ctx, spec *gen.TableSpec, aligns []int, decos []namedDeco, st *stage, sample bool) {
 	m := textModelOf(spec)
 	m.Aligns = make([]int, m.NCols)
@@ -56,6 +64,10 @@ func c04Check(c *Ctx, spec *gen.TableSpec, aligns []int, decos []namedDeco, st *
 	}
 	t0 := tabular.New()
 	reused := texttable.Wrap(t0)
+	// in a fifth of the cases the assignment is made by the application's own render-time callback on the table
+	// (an "align the numeric columns" hook): the table's pre-cell callback runs first in every pass, before any
+	// cell is laid out, so what it sets is the columns' setting for that render
+	viaCallback := gen.Hash64(spec.Shape(), fmt.Sprint(aligns))%5 == 0
 	var b *gen.Built
 	if st != nil {
 		b = spec.BuildStagedN(t0, st.points(), func() {
@@ -66,11 +78,22 @@ func c04Check(c *Ctx, spec *gen.TableSpec, aligns []int, decos []namedDeco, st *
 		applyAligns(t0, st.PreAligns)
 		reused.SetDecoration(decos[len(decos)-1].d).Render()
 		b.Finalize()
-		setAlignsExactly(t0, aligns) // puts the final assignment in force, withdrawing what the earlier one set
+		if viaCallback {
+			c04AlignFromCallback(t0, aligns)
+		} else {
+			setAlignsExactly(t0, aligns) // puts the final assignment in force, withdrawing what the earlier one set
+		}
 		c.Rec.Count("staged_cases(render, change, render again through the same wrapper)", 1)
 	} else {
 		b = spec.Build(t0)
-		applyAligns(b.T, aligns)
+		if viaCallback {
+			c04AlignFromCallback(t0, aligns)
+		} else {
+			applyAligns(b.T, aligns)
+		}
+	}
+	if viaCallback {
+		c.Rec.Count("cases_whose_alignments_are_assigned_by_a_render-time_callback_of_the_table", 1)
 	}
 	widths := model.ColumnWidths(m, length.StringCells)
 	declW, declH := false, false
